@@ -12,6 +12,8 @@ import (
 	"crypto/ed25519"
 	"crypto/elliptic"
 	"crypto/rsa"
+	cryptorand "crypto/rand"
+	"io"
 	"encoding/hex"
 	"encoding/json"
 	"fmt"
@@ -296,3 +298,28 @@ func (vZeroReader) Read(p []byte) (int, error) {
 	}
 	return len(p), nil
 }
+
+// vOnCurve: environment flag "point is valid for crypto/ecdh" (uninterpreted for the solver).
+func vOnCurve(pub *ecdsa.PublicKey) bool {
+	_, err := pub.ECDH()
+	return err == nil
+}
+
+var vRSACache *rsa.PrivateKey
+
+// vRSAKeyValid: a genuine >= 2048-bit RSA key natively; an abstract key of
+// symbolic size >= 2048 for the solver.
+func vRSAKeyValid(name string) *rsa.PrivateKey {
+	vName(name)
+	if vRSACache == nil {
+		k, err := rsa.GenerateKey(cryptorand.Reader, 2048)
+		if err != nil {
+			panic(err)
+		}
+		vRSACache = k
+	}
+	return vRSACache
+}
+
+// vRand: the entropy source handed to signers.
+func vRand() io.Reader { return cryptorand.Reader }
